@@ -271,6 +271,25 @@ Proof.
     destruct last as [o|]; [|exact I]. apply opt_eqb_eq. exact H.
 Qed.
 
+(* the flag of the release class never goes back *)
+Lemma lost_mono : forall cf w a, w_lost w = true -> w_lost (step cf w a) = true.
+  Proof.
+    intros cf w a H. destruct a; cbn [step].
+    - unfold tick. destruct (w_todo w) as [|[s|p] rest]; [exact H|exact H|].
+      destruct (w_reps w <? ncalls w); exact H.
+    - unfold client_step;
+        repeat match goal with
+               | |- context [match ?x with _ => _ end] => destruct x
+               | |- context [let '(_, _) := ?x in _] => destruct x
+               end;
+        cbn [w_lost call set_ph]; try exact H; rewrite H; reflexivity.
+    - unfold consumer_poll;
+        repeat match goal with
+               | |- context [match ?x with _ => _ end] => destruct x
+               end;
+        cbn [w_lost call set_ph]; exact H.
+  Qed.
+
 (* ---------------------------------------------------------------- the invariant *)
 Definition creation (d : dest) : N := match d with DWell => 3 | DUnique _ => 1 end.
 
@@ -929,24 +948,6 @@ Section Run.
   Lemma init_inv : WInv (init_world h).
   Proof.
     exists []. split; [exact Base_init|]. unfold PInv. cbn. split; reflexivity.
-  Qed.
-
-  Lemma lost_mono : forall w a, w_lost w = true -> w_lost (step cf w a) = true.
-  Proof.
-    intros w a H. destruct a; cbn [step].
-    - unfold tick. destruct (w_todo w) as [|[s|p] rest]; [exact H|exact H|].
-      destruct (w_reps w <? ncalls w); exact H.
-    - unfold client_step;
-        repeat match goal with
-               | |- context [match ?x with _ => _ end] => destruct x
-               | |- context [let '(_, _) := ?x in _] => destruct x
-               end;
-        cbn [w_lost call set_ph]; try exact H; rewrite H; reflexivity.
-    - unfold consumer_poll;
-        repeat match goal with
-               | |- context [match ?x with _ => _ end] => destruct x
-               end;
-        cbn [w_lost call set_ph]; exact H.
   Qed.
 
   Lemma step_inv : forall w a, WInv w -> w_lost (step cf w a) = false -> WInv (step cf w a).
